@@ -299,7 +299,13 @@ def gen_config(cs, tier='quick', force=None):
     if force.get('inputs'):
         inputs = [dict(x) for x in force['inputs']]
     c['special'] = None
-    if c['program'] == 'hip' and not force.get('inputs') and cs.choose(12, 'special') == 11:
+    sp_ = cs.choose(12, 'special') if c['program'] == 'hip' and not force.get('inputs') else 0
+    if sp_ == 10:
+        # a very large reservoir: results that need more characters than their column has (1,000,000 MW and more on a long
+        # label), for some of the rows only
+        c['special'] = 'hip_huge'
+        inputs = [dict(x) for x in WL.HIP_HUGE_INPUTS]
+    if sp_ == 11:
         # the -9999.0 exclusion rule of the summary
         c['special'] = 'exclusion_rule'
         # (an extra input is kept only if its arguments do not depend on the base input, which this scenario replaces)
@@ -326,6 +332,15 @@ def gen_config(cs, tier='quick', force=None):
         c['outputs'] = (keep + must) if cs.choose(2, 'lorder') == 0 else (must + keep)
     if c['special'] == 'exclusion_rule':
         c['outputs'] = list(WL.HIP_9999_OUTPUTS) if cs.choose(2, 'sorder') == 0 else list(reversed(WL.HIP_9999_OUTPUTS))
+    # an OUTPUT that no report of the run carries (misspelt, or not applicable to this kind of model), listed in front of at
+    # least one that is reported: its column holds the placeholder in every row
+    c['absent_output'] = None
+    if not c['special'] and cs.choose(10, 'absent_output') == 9:
+        c['absent_output'] = {'hip': 'Produced Electricity (reservoir)', 'hipold': 'Produced Electricity', 'geo': 'Levelized Cost of Unobtainium',
+                              'toy': 'Unit Price'}[c['program']]
+        c['outputs'].insert(cs.choose(len(c['outputs']), 'absent_pos'), c['absent_output'])
+    if c['special'] == 'hip_huge':
+        c['outputs'] = list(WL.HIP_HUGE_OUTPUTS) if cs.choose(2, 'horder') == 0 else list(reversed(WL.HIP_HUGE_OUTPUTS))
     it = ITER_TABLE_HIP if hip else ITER_TABLE_GEO
     if tier == 'thorough':
         it = it + ([64, 100, 200] if hip else [12, 16])
@@ -899,7 +914,8 @@ def extract_output(report, label):
     hits = []
     for ln in report.split('\n'):
         head, sep, tail = ln.partition(':')
-        if sep and head.strip() == label and tail[:1] in (' ', '\t'):
+        # (a blank after the colon is usual but not required: a value that fills its column touches the colon)
+        if sep and head.strip() == label and (tail[:1] in (' ', '\t') or re.match(r'[-+.\d]', tail)):
             t = tail.strip().split()
             if t:
                 hits.append(t[0])
@@ -1340,18 +1356,26 @@ def _check_stats(rec, c, pr, out_path, V):
     except (OSError, ValueError) as e:
         V('C14', 'json_text_mismatch', 'json_missing', f'{type(e).__name__}: {e}')
         return
-    if list(js.keys()) != outputs and set(js.keys()) != set(outputs):
-        V('C14', 'json_text_mismatch', 'json_keys', f'{list(js.keys())} != {outputs}')
     cols = []
     ok = all(len(r[1]) == len(outputs) for r in rows)
-    if not ok or not rows:
+    if ok and rows:
+        for j in range(len(outputs)):
+            try:
+                cols.append([float(r[1][j]) for r in rows])
+            except ValueError:
+                cols = []
+                break
+    # an OUTPUT whose column holds no value at all may be summarised (as nan) or left out of the summary: both describe the rows
+    optional = {o for j, o in enumerate(outputs) if cols and all(x != x for x in cols[j])}
+    need = [o for o in outputs if o not in optional]
+    have = [o for o in js.keys() if o not in optional]
+    if have != need and set(have) != set(need) or any(o not in outputs for o in js.keys()):
+        V('C14', 'json_text_mismatch', 'json_keys', f'{list(js.keys())} != {outputs}')
+    if not cols:
         return
-    for j in range(len(outputs)):
-        try:
-            cols.append([float(r[1][j]) for r in rows])
-        except ValueError:
-            return
     for j, o in enumerate(outputs):
+        if o in optional and o not in js and o not in pr['stats']:
+            continue
         has_nan = any(x != x for x in cols[j])
         xs = sorted(x for x in cols[j] if x == x)       # the summary's statistics ignore missing values ('nan')...
         n = len(xs)
@@ -1379,7 +1403,7 @@ def _check_stats(rec, c, pr, out_path, V):
                 V('C14', 'json_text_mismatch', 'text_missing', f'{o}: no {sname} line in the text summary')
             elif isinstance(g, (int, float)) and t != f'{g:,.2f}':
                 V('C14', 'json_text_mismatch', sname, f'{o}: {sname} text={t!r} json={g!r}')
-    if pr['stats_order'] != outputs:
+    if [o for o in pr['stats_order'] if o not in optional] != need:
         V('C14', 'json_text_mismatch', 'text_order', f"{pr['stats_order']} != {outputs}")
 
 
